@@ -49,6 +49,10 @@ def random_tables(rng, n):
     return out
 
 
+def unknown_so_far(ctx):
+    return bool(ctx.violations)
+
+
 class Runner:
     """Unique cfg per TLC run so that runs can go in parallel (ctx.tlc names its scratch dir after the cfg)."""
 
@@ -278,11 +282,16 @@ def run(ctx):
             raise vlib.Inconclusive("concurrent driver produced too few overlapping calls: %s" % cnc)
 
     # which variant of the spec does the code follow?  (decided on the deviating steps only)
-    dev_asis, dev_fixed = rep.get("dev_asis", 0), rep.get("dev_fixed", 0)
+    dev_asis = rep.get("dev_asis", 0) + rnd.get("dev_asis", 0)
+    dev_fixed = rep.get("dev_fixed", 0) + rnd.get("dev_fixed", 0)
     if dev_asis and dev_fixed:
         variant = None
     elif dev_fixed:
         variant = "FALSE"
+    elif dev_asis:
+        variant = "TRUE"
+    elif not unknown_so_far(ctx) and not ctx.replay:
+        raise vlib.Inconclusive("no deviating Rebase step (invalidated value duplicated among the kept) was executed; cannot tell which spec variant the code follows")
     else:
         variant = "TRUE"
     ctx.log("replayed %d behaviours (%d steps) + %d random executions; deviating steps: %d follow the as-is spec, %d the design; mismatches %d, violations %d"
